@@ -199,7 +199,14 @@ func runC20(c *Ctx) {
 				c.ok("C20-R4", "C20-R4|synthesise|min-fold guard", fn.Pos(), "A TTL lowers ttl only behind a.Hdr.Ttl < ttl")
 			}
 			// chain copies: store to Ttl only behind Ttl > ttl
-			c.MustCross("C20-R4", fn, "chain copy TTL store", func(in ssa.Instruction) bool { return isFieldStore(in, hdrTTL, nil) },
+			dnsCopy := c.fobj("C20-R4", "github.com/miekg/dns.Copy")
+			c.MustCross("C20-R4", fn, "chain copy TTL store", func(in ssa.Instruction) bool {
+				if !isFieldStore(in, hdrTTL, nil) {
+					return false
+				}
+				// the header of a record copied from the A response's chain (cp := dns.Copy(c); cp.Header().Ttl = …)
+				return Contains(CallTo(dnsCopy))(Desc(in.(*ssa.Store).Addr.(*ssa.FieldAddr).X))
+			},
 				OnCmp("cp.Ttl>ttl", FieldIs(hdrTTL), token.GTR, func(e *Expr) bool { return true }, true))
 		}
 	}
